@@ -362,6 +362,14 @@ pub fn slice_probe<const N: usize>(cfg: &HxCfg, g: &Sodg<N>, m: &Model, out: &mu
                     Ok(Ok(s)) => {
                         let n0 = out.len();
                         judge_slice(&what, &s, m, v, &cfg.labels, p.as_ref(), out);
+                        // a slice of the slice, taken the same way, must be the same sub-graph again
+                        if out.len() == n0 && name == "slice" {
+                            match guarded(|| s.slice(v)) {
+                                Ok(Ok(s2)) => judge_slice(&format!("{what}, sliced once more"), &s2, m, v, &cfg.labels, p.as_ref(), out),
+                                Ok(Err(e)) => out.push(Finding::new("slice-error", tags, format!("{what}, sliced once more, returned Err: {e:#}"))),
+                                Err(e) => out.push(Finding::new("slice-panic", tags, format!("{what}, sliced once more, panicked: {e}"))),
+                            }
+                        }
                         out.len() == n0
                     }
                 }
